@@ -153,9 +153,13 @@ func selfValidate(o opts) map[string]interface{} {
 			}
 			var fresh []string
 			hit := false
+			broken := ""
 			for k, ob := range bad(obs) {
 				if _, was := baseBad[k]; was {
 					continue
+				}
+				if ob.Rule == "R0" {
+					broken = ob.Detail
 				}
 				fresh = append(fresh, ob.Rule+" "+ob.Key)
 				if ob.Rule == m.Expect {
@@ -163,6 +167,13 @@ func selfValidate(o opts) map[string]interface{} {
 				}
 			}
 			sort.Strings(fresh)
+			if broken != "" {
+				if len(broken) > 160 {
+					broken = broken[:160]
+				}
+				outs[i] = outcome{m.Name, m.Kind, "skipped", "does not compile: " + broken}
+				return
+			}
 			switch m.Kind {
 			case "variant":
 				if len(fresh) == 0 {
